@@ -8,7 +8,7 @@ prop, name = sys.argv[1], sys.argv[2]
 wt = f"/tmp/wt/{prop}"; out = f"/tmp/wt/out-{prop}"
 diff = f"{out}/{name}.diff"
 num = re.sub(r"\D", "", name)
-demo = sys.argv[3] if len(sys.argv) > 3 else (f"{out}/demo_{num}.rs" if not name.startswith("extra") else f"{out}/extra_demo_{num}.rs")
+demo = sys.argv[3] if len(sys.argv) > 3 and not sys.argv[3].startswith("--") else (f"{out}/demo_{num}.rs" if not name.startswith("extra") else f"{out}/extra_demo_{num}.rs")
 env = dict(os.environ, CARGO_NET_OFFLINE="true", RUST_BACKTRACE="0")
 def sh(cmd, **kw): return subprocess.run(cmd, shell=True, cwd=wt, env=env, capture_output=True, text=True, **kw)
 sh("git checkout -q -- . && rm -f tests/demo_*.rs tests/extra_demo_*.rs")
@@ -23,6 +23,10 @@ demo_fails_with = with_m.returncode != 0 and "error: could not compile" not in w
 sh("git checkout -q -- .")
 without = sh("cargo test --offline --test demo_x 2>&1")
 demo_passes_without = without.returncode == 0
+compile_fail_demo = "--compile-fail-demo" in sys.argv
+if compile_fail_demo:
+    # the demonstration is a program that must NOT compile: "passes" = rejected by the compiler on the unmodified tree
+    demo_passes_without = "error: could not compile" in without.stdout and "error[E" in without.stdout
 os.remove(f"{wt}/tests/demo_x.rs")
 ok = suite_ok and demo_fails_with and demo_passes_without
 print(f"{prop}/{name}: suite_ok={suite_ok} demo_fails_with={demo_fails_with} demo_passes_without={demo_passes_without} -> {'CONFIRMED' if ok else 'REJECTED'}")
@@ -33,8 +37,8 @@ sid = f"{prop}-{name.replace('extra_', 'x')}"
 d = f"/verif/seeded/{sid}"; os.makedirs(d, exist_ok=True)
 shutil.copy(diff, f"{d}/patch.diff"); shutil.copy(demo, f"{d}/demo.rs")
 notes = open(f"{out}/notes.md").read() if os.path.exists(f"{out}/notes.md") else ""
-meta = {"id": sid, "breaks_property": prop.rstrip("b"), "origin": "independent sub-agent given only the property text and a scratch worktree",
-        "confirmed": {"suite_with_change": "all test binaries ok, 39/39 in tests/tests.rs", "demo_with_change": "fails", "demo_without_change": "passes",
+meta = {"id": sid, "breaks_property": prop.rstrip("bc"), "origin": "independent sub-agent given only the property text and a scratch worktree",
+        "confirmed": {"suite_with_change": "all test binaries ok, 39/39 in tests/tests.rs", "demo_with_change": "fails", "demo_without_change": "rejected by the compiler (the demonstration is a program that must not compile)" if compile_fail_demo else "passes",
                       "commands": ["git apply patch.diff", "cargo test --workspace --no-fail-fast --offline", "cargo test --offline --test demo_x (with and without the change)"]},
         "needs_to_manifest": "", "detected_by": {}}
 if os.path.exists(f"{d}/meta.json"):
